@@ -32,8 +32,8 @@ ScalarKinds ==
   { <<"integer", "">>, <<"integer", "int8">>, <<"integer", "int32">>, <<"integer", "int64">>,
     <<"number", "">>, <<"number", "float">>, <<"number", "double">>, <<"boolean", "">>,
     <<"string", "">>, <<"string", "date">>, <<"string", "byte">>, <<"string", "uuid">>, <<"string", "password">> }
-    \cup (IF Thorough THEN { <<"integer", "int16">>, <<"string", "date-time">>, <<"string", "foo">> } ELSE {})
-ItemKinds == { <<"string", "">>, <<"integer", "int32">>, <<"number", "">>, <<"string", "uuid">> }
+    \cup (IF Thorough THEN { <<"integer", "int16">>, <<"string", "date-time">>, <<"string", "foo">>, <<"string", "sku">> } ELSE {})
+ItemKinds == { <<"string", "">>, <<"integer", "int32">>, <<"number", "">>, <<"string", "uuid">>, <<"string", "sku">> }   \* sku: application-defined
              \cup (IF Thorough THEN { <<"number", "double">>, <<"string", "date">>, <<"integer", "int64">>, <<"boolean", "">> } ELSE {})
 CFs == IF Thorough THEN {"", "csv", "ssv", "tsv", "pipes", "multi"} ELSE {"", "ssv", "pipes", "multi"}
 DeclHdrNames == IF Thorough THEN HdrNames ELSE { <<88, 45, 76, 105, 109>>, <<120, 45, 108, 105, 109>> }
